@@ -51,6 +51,23 @@ Fixpoint utf8_ok (e : enc) : bool :=
   | _ => true
   end.
 
+(* a syntactic class on which the build without `alloc` must skip successfully (decoder.rs:595: "skipping
+   over maps or arrays that contain an indefinite-length map or array will return an error"):
+   no indefinite array/map anywhere below a definite array/map *)
+Fixpoint defonly (e : enc) : bool :=
+  match e with
+  | EArray _ es | EMap _ es => forallb defonly es
+  | EArrayI _ | EMapI _ => false
+  | ETag _ _ e => defonly e
+  | _ => true
+  end.
+Fixpoint noalloc_ok (e : enc) : bool :=
+  match e with
+  | EArrayI es | EMapI es => forallb noalloc_ok es
+  | ETag _ _ e => noalloc_ok e
+  | _ => defonly e
+  end.
+
 Definition spec_acc (a : acc) (e : enc) : expect :=
   match a with
   | AU8 => int_acc 0 255 mkN e
